@@ -456,7 +456,12 @@ func gen(r *vh.Rand, tier string) []string {
 		if r.Chance(2, 3) {
 			script = genScript(r, 40)
 		}
-		out = append(out, fmt.Sprintf("shot %d %s %s %s %s gun:%s", n, script, t, rq, sc, r.Pick([]string{"d", "d", "f"})))
+		gun := r.Pick([]string{"d", "d", "d", "f", "f", "2"})
+		if gun == "2" {
+			// the HTTP/2 side of the target cannot hijack the connection: no garbage / truncated answers there
+			script = strings.NewReplacer(":g", ":s503", ":t", ":s502").Replace(script)
+		}
+		out = append(out, fmt.Sprintf("shot %d %s %s %s %s gun:%s", n, script, t, rq, sc, gun))
 	}
 	// fault sweep: the same description, one fault of every kind at every arrival position
 	for i := 0; i < 12*mul; i++ {
@@ -471,6 +476,9 @@ func gen(r *vh.Rand, tier string) []string {
 		for k := 0; k < 5; k++ {
 			for _, act := range []string{"g", "t", "s500", "n", "h", r.Pick([]string{"r302", "r301", "r303", "r307", "r308"})} {
 				out = append(out, fmt.Sprintf("shot %d %d:%s %s %s %s gun:d", n, k, act, t, rq, sc))
+			}
+			if k < 3 {
+				out = append(out, fmt.Sprintf("shot %d %d:%s %s %s %s gun:2", n, k, r.Pick([]string{"r302", "r301", "r303", "r307", "r308"}), t, rq, sc))
 			}
 		}
 	}
